@@ -151,27 +151,113 @@ def v6PartsOk (parts : List (List Char)) : Bool :=
   (if interior == 0 then n == 8 && !firstEmpty && !lastEmpty
    else interior == 1 && (!firstEmpty || secondEmpty) && (!lastEmpty || secondLastEmpty) && decide (n - empties ≤ 7))
 
+/-- the `:`-separated parts of an IPv6 literal; a dotted-quad last part (`::ffff:1.2.3.4`) is replaced by its two
+    hextets, as `_ip_int_from_string` does (an invalid dotted quad invalidates the literal) -/
+def v6Parts (a : List Char) : List (List Char) :=
+  let parts := splitOnC ':' a
+  match parts.getLast? with
+  | some last =>
+    if last.contains '.' then
+      (if isV4 last then
+         (match (splitOnC '.' last).map digitsToNat with
+          | [o1, o2, o3, o4] => parts.dropLast ++ [Nat.toDigits 16 (o1 * 256 + o2), Nat.toDigits 16 (o3 * 256 + o4)]
+          | _ => [])
+       else [])
+    else parts
+  | none => parts
+
 /-- `ip_address(host)` accepts `host` as IPv6: `addr` or `addr%zone` with a non-empty zone without `%`
     (`_split_scope_id`) -/
 def isV6 (h : List Char) : Bool :=
   match splitOnC '%' h with
-  | [a] => v6PartsOk (splitOnC ':' a)
-  | [a, z] => !z.isEmpty && v6PartsOk (splitOnC ':' a)
+  | [a] => v6PartsOk (v6Parts a)
+  | [a, z] => !z.isEmpty && v6PartsOk (v6Parts a)
   | _ => false
 
-def ipVersion (loc : String) : Option Nat :=
-  match afterScheme loc.toList with
-  | none => none
-  | some r =>
-    let netloc := r.takeWhile fun c => !(c == '/' || c == '?' || c == '#')
+/-! ### `urlsplit`: the part of it `ip_version_from_location` depends on -/
+
+/-- `urlsplit` first strips leading C0 controls / blanks and removes TAB, CR, LF anywhere -/
+def urlClean (l : List Char) : List Char :=
+  (l.filter fun c => !(c == '\t' || c == '\r' || c == '\n')).dropWhile fun c => decide (c.toNat ≤ 32)
+
+def isAlphaC (c : Char) : Bool := ('a' ≤ c && c ≤ 'z') || ('A' ≤ c && c ≤ 'Z')
+def schemeChar (c : Char) : Bool := isAlphaC c || isDigit c || c == '+' || c == '-' || c == '.'
+
+/-- `scheme:` is split off when the text before the first `:` starts with a letter and consists of scheme characters -/
+def splitScheme (l : List Char) : List Char × List Char :=
+  match l.dropWhile (· != ':') with
+  | ':' :: rest =>
+    (match l.takeWhile (· != ':') with
+     | c :: pre => if isAlphaC c && pre.all schemeChar then (lowerL (c :: pre), rest) else ([], l)
+     | [] => ([], l))
+  | _ => ([], l)
+
+/-- the netloc: present only when what follows the scheme starts with `//`; it ends at the first `/`, `?` or `#` -/
+def netlocOfUrl (l : List Char) : Option (List Char) :=
+  match (splitScheme (urlClean l)).2 with
+  | '/' :: '/' :: r => some (r.takeWhile fun c => !(c == '/' || c == '?' || c == '#'))
+  | _ => none
+
+/-- `x.partition('[')[2].partition(']')[0]` -/
+def bracketed (l : List Char) : List Char := ((l.dropWhile (· != '[')).drop 1).takeWhile (· != ']')
+
+/-- `SplitResult.hostname` (not lower-cased), `none` when `urlsplit` raises `ValueError` (unbalanced brackets, a
+    bracketed host `ip_address` does not accept as IPv6) or there is no host -/
+def hostOfNetloc (netloc : List Char) : Option (List Char) :=
+  if netloc.contains '[' != netloc.contains ']' then none
+  else if netloc.contains '[' && !isV6 (bracketed netloc) then none
+  else
     let hp := afterLastAt netloc
-    match hp with
-    | '[' :: r6 =>
-      let h := r6.takeWhile (· != ']')
-      if isV6 h then some 6 else none
-    | _ =>
-      let h := hp.takeWhile (· != ':')
-      if isV4 h then some 4 else none
+    let h := if hp.contains '[' then bracketed hp else hp.takeWhile (· != ':')
+    if h.isEmpty then none else some h
+
+/-- `ip_version_from_location`: `ip_address(urlparse(location).hostname).version`, every `ValueError` suppressed -/
+def ipVersion (loc : String) : Option Nat :=
+  match (netlocOfUrl loc.toList).bind hostOfNetloc with
+  | none => none
+  | some h => if isV4 h then some 4 else if isV6 h then some 6 else none
+
+/-! ### the property text's reading of an acceptable location (used by the judges only) -/
+
+def hexDigitVal (c : Char) : Nat :=
+  if isDigit c then c.toNat - 48 else if 'a' ≤ c && c ≤ 'f' then c.toNat - 87 else c.toNat - 55
+
+def hexVal (g : List Char) : Nat := g.foldl (fun a c => a * 16 + hexDigitVal c) 0
+
+/-- the eight hextet values of an IPv6 literal (zone apart) -/
+def v6Groups (h : List Char) : Option (List Nat) :=
+  match splitOnC '%' h with
+  | a :: _ =>
+    let parts := v6Parts a
+    if !isV6 h then none
+    else
+      let hi := (parts.takeWhile fun g => !g.isEmpty).map hexVal
+      let lo := ((parts.dropWhile fun g => !g.isEmpty).dropWhile fun g => g.isEmpty).map hexVal
+      if parts.all (fun g => !g.isEmpty) then some hi
+      else some (hi ++ List.replicate (8 - hi.length - lo.length) 0 ++ lo)
+  | [] => none
+
+/-- loopback (127.0.0.0/8) or IPv4 link-local (169.254.0.0/16) -/
+def v4Bad (o : List Nat) : Bool := o.head? == some 127 || o.take 2 == [169, 254]
+
+/-- the host is loopback or IPv4 link-local: the name `localhost`, an IPv4 literal in 127/8 or 169.254/16, the IPv6
+    loopback `::1` in any spelling, or an IPv4-mapped IPv6 address of such an IPv4 address -/
+def hostBadByText (h : List Char) : Bool :=
+  lowerL h == "localhost".toList ||
+  (isV4 h && v4Bad ((splitOnC '.' h).map digitsToNat)) ||
+  (match v6Groups h with
+   | some [0, 0, 0, 0, 0, 0, 0, 1] => true
+   | some [0, 0, 0, 0, 0, 65535, g7, g8] => v4Bad [g7 / 256, g7 % 256, g8 / 256, g8 % 256]
+   | _ => false)
+
+/-- "an http(s) location that is neither loopback nor IPv4 link-local": an `http:` / `https:` URL with a host that is
+    not loopback / link-local.  (Legacy shorthand hosts such as `127.1` are names in this reading.) -/
+def locByText (loc : String) : Bool :=
+  let raw := (urlClean loc.toList).takeWhile (· != ':')      -- the scheme as written (lower case, as UDA URLs are)
+  (raw == "http".toList || raw == "https".toList) &&
+  (match (netlocOfUrl loc.toList).bind hostOfNetloc with
+   | some h => !hostBadByText h
+   | none => false)
 
 /-! ### from raw headers to the event -/
 
@@ -232,6 +318,14 @@ def parseEv (cfg : Cfg) (sockA : Bool) (pairs : List (String × String)) : Ev St
   else
     if (truthy (get? h "nts")).isSome then .noise (tsOf h)
     else .msg (mkMsg cfg .search (SMap.write lower h "_source" "search"))
+
+/-- the judges' reading of an event: the same message, with the location judged by the property text
+    (`locByText`) instead of the code's substring test -/
+def textReading : Ev String → Ev String
+  | .msg m => .msg { m with locOk := match m.loc with
+      | some l => locByText l
+      | none => false }
+  | e => e
 
 end Parse
 end Upnp.C03
